@@ -193,7 +193,9 @@ func Check(c *core.Ctx) (map[string]any, []string, error) {
 			continue
 		}
 		replayed++
-		addUnits(w.Units[:schedN[k]])
+		tu := w.TemplateUnit()
+		addUnits(append(append([]*Unit{}, w.Units[:schedN[k]]...), tu))
+		byID[tu.ID] = fmt.Sprintf("gated schedule %v, unit kind %s:\n%s", s, tu.Kind, strings.Join(tu.srcs, "\n---- then ----\n"))
 		for _, u := range w.Units[:schedN[k]] {
 			byID[u.ID] = fmt.Sprintf("gated schedule %v, unit kind %s:\n%s", s, u.Kind, strings.Join(u.srcs, "\n---- then ----\n"))
 		}
@@ -247,7 +249,7 @@ func Check(c *core.Ctx) (map[string]any, []string, error) {
 	}
 	cov := map[string]any{
 		"api_state_machine": apiCov,
-		"states": states + res.Distinct, "transitions": trans + res.Generated, "traces_validated_against_impl": nUnits,
+		"states":            states + res.Distinct, "transitions": trans + res.Generated, "traces_validated_against_impl": nUnits,
 		"samples":    []any{map[string]any{"schedule": firstOr(schedules), "note": "each entry releases the named runtime for 3 statement polling points"}},
 		"model_runs": tlcRuns, "schedules_replayed_gated": replayed, "units_judged": nUnits, "units_under_race_detector": len(raceUnits),
 		"race_reports": len(raceReports), "undecided_units": nUnd, "rejected_units": nBad,
